@@ -57,3 +57,12 @@ func TestC07(t *testing.T) {
 	defer r.Write()
 	vtx.Explore(t, profile(), r)
 }
+
+// TestC07BFS: merged breadth-first search to depth 8 (thorough tier only).
+func TestC07BFS(t *testing.T) {
+	r := rep.New("C07")
+	defer r.Write()
+	p := profile()
+	p.Name = "c07-bfs"
+	vtx.ExploreBFS(t, p, r, 8)
+}
